@@ -79,8 +79,26 @@ fn field_from(f: &Field<PortableForm>) -> PField {
     }
 }
 
+// Library values are built with the public constructor and then every public
+// field is assigned: a constructor that normalises its arguments cannot mask
+// what the scenario asks for, and a private field added to a struct does not
+// stop the harness from compiling.
 fn field_to(f: &PField) -> Field<PortableForm> {
-    Field::new(f.name.clone(), sym(f.ty), f.type_name.clone(), f.docs.clone())
+    let mut out = Field::new(None, sym(f.ty), None, Vec::new());
+    out.name = f.name.clone();
+    out.ty = sym(f.ty);
+    out.type_name = f.type_name.clone();
+    out.docs = f.docs.clone();
+    out
+}
+
+fn variant_to(v: &PVariant) -> Variant<PortableForm> {
+    let mut out = Variant::new(String::new(), Vec::new(), 0, Vec::new());
+    out.name = v.name.clone();
+    out.fields = v.fields.iter().map(field_to).collect();
+    out.index = v.index;
+    out.docs = v.docs.clone();
+    out
 }
 
 pub fn variant_from(v: &Variant<PortableForm>) -> PVariant {
@@ -111,19 +129,28 @@ pub fn def_from(d: &TypeDef<PortableForm>) -> PDef {
 
 pub fn def_to(d: &PDef) -> TypeDef<PortableForm> {
     match d {
-        PDef::Composite(fs) => TypeDefComposite::new(fs.iter().map(field_to)).into(),
-        PDef::Variant(vs) => TypeDefVariant::new(vs.iter().map(|v| {
-            Variant::new(
-                v.name.clone(),
-                v.fields.iter().map(field_to).collect(),
-                v.index,
-                v.docs.clone(),
-            )
-        }))
-        .into(),
+        PDef::Composite(fs) => {
+            let mut d = TypeDefComposite::new(Vec::new());
+            d.fields = fs.iter().map(field_to).collect();
+            d.into()
+        }
+        PDef::Variant(vs) => {
+            let mut d = TypeDefVariant::new(Vec::new());
+            d.variants = vs.iter().map(variant_to).collect();
+            d.into()
+        }
         PDef::Sequence(t) => TypeDefSequence::new(sym(*t)).into(),
-        PDef::Array(n, t) => TypeDefArray::new(*n, sym(*t)).into(),
-        PDef::Tuple(ts) => TypeDefTuple::new_portable(ts.iter().map(|&t| sym(t))).into(),
+        PDef::Array(n, t) => {
+            let mut d = TypeDefArray::new(0, sym(*t));
+            d.len = *n;
+            d.type_param = sym(*t);
+            d.into()
+        }
+        PDef::Tuple(ts) => {
+            let mut d = TypeDefTuple::new_portable(Vec::new());
+            d.fields = ts.iter().map(|&t| sym(t)).collect();
+            d.into()
+        }
         PDef::Primitive(p) => PRIMITIVES[*p as usize % 15].clone().into(),
         PDef::Compact(t) => TypeDefCompact::new(sym(*t)).into(),
         PDef::BitSeq(a, b) => TypeDefBitSequence::new_portable(sym(*a), sym(*b)).into(),
@@ -145,15 +172,23 @@ impl PType {
     }
 
     pub fn to_lib(&self) -> Type<PortableForm> {
-        Type::new(
-            Path::from_segments_unchecked(self.path.iter().cloned()),
-            self.params
-                .iter()
-                .map(|(n, t)| TypeParameter::new_portable(n.clone(), t.map(sym)))
-                .collect::<Vec<_>>(),
-            def_to(&self.def),
-            self.docs.clone(),
-        )
+        let mut path = Path::from_segments_unchecked(Vec::<String>::new());
+        path.segments = self.path.clone();
+        let mut out = Type::new(path.clone(), Vec::new(), def_to(&self.def), Vec::new());
+        out.path = path;
+        out.type_params = self
+            .params
+            .iter()
+            .map(|(n, t)| {
+                let mut p = TypeParameter::new_portable(String::new(), None);
+                p.name = n.clone();
+                p.ty = t.map(sym);
+                p
+            })
+            .collect();
+        out.type_def = def_to(&self.def);
+        out.docs = self.docs.clone();
+        out
     }
 
     /// Every type id mentioned in this type, in positional order: type
@@ -251,7 +286,11 @@ impl PReg {
         registry_of(
             self.types
                 .iter()
-                .map(|(id, t)| PortableType::new(*id, t.to_lib()))
+                .map(|(id, t)| {
+                    let mut e = PortableType::new(*id, t.to_lib());
+                    e.id = *id;
+                    e
+                })
                 .collect(),
         )
     }
